@@ -40,6 +40,7 @@ type State struct {
 	defers  map[*ssa.Defer]string // registered flag (Bool term)
 	heap    map[string]string     // "Type.field" -> array term
 	hs      string                // array heap: (Array Int (Array Int Int))
+	hsf     map[string]string     // per-field array heaps for slices of structs: "Type.field" -> term
 	mdom    map[string]string     // map ref -> (Array Int Bool)
 	mval    map[string]string     // map ref -> (Array Int Bool|Int)
 	refs    []string
@@ -50,7 +51,7 @@ type State struct {
 }
 
 func newState() *State {
-	return &State{pc: "true", cells: map[*ssa.Alloc]Val{}, ghost: map[string]Val{}, globs: map[string]Val{}, fv: map[*ssa.FreeVar]Val{}, defers: map[*ssa.Defer]string{}, heap: map[string]string{}, mdom: map[string]string{}, mval: map[string]string{}, fresh: map[string]bool{}, esc: map[string]bool{}}
+	return &State{pc: "true", cells: map[*ssa.Alloc]Val{}, ghost: map[string]Val{}, globs: map[string]Val{}, fv: map[*ssa.FreeVar]Val{}, defers: map[*ssa.Defer]string{}, heap: map[string]string{}, mdom: map[string]string{}, mval: map[string]string{}, fresh: map[string]bool{}, esc: map[string]bool{}, hsf: map[string]string{}}
 }
 
 func (s *State) clone() *State {
@@ -79,6 +80,9 @@ func (s *State) clone() *State {
 	}
 	for k, v := range s.esc {
 		n.esc[k] = v
+	}
+	for k, v := range s.hsf {
+		n.hsf[k] = v
 	}
 	n.lemmaIt = s.lemmaIt
 	n.hs = s.hs
@@ -151,6 +155,9 @@ type Gen struct {
 	specTypes   map[string]types.Type
 	freshErrs      []string
 	foreignErrList []string
+	capturedCells map[*ssa.Alloc]bool
+	hsfSorts    map[string]string
+	entryHsf    map[string]string
 	globInit    map[string]Val
 	globFacts   map[string]string
 	refRange    map[string][2]string
@@ -606,7 +613,7 @@ func (g *Gen) val(st *State, v ssa.Value) Val {
 		}
 		return fv
 	case *ssa.Function:
-		return Val{T: "0", Kind: "closure", Fn: x}
+		return Val{T: strID(x.String()), Kind: "closure", Fn: x}
 	case *ssa.Builtin:
 		return Val{T: "0", Kind: "opaque"}
 	}
@@ -832,6 +839,20 @@ func (g *Gen) merge(ins []*State) *State {
 			vs = append(vs, Val{Kind: "heaparr:" + g.heapSort[k], T: g.heapGet(s, k)})
 		}
 		out.heap[k] = g.mergeVal(sel, vs).T
+	}
+	hsfKeys := map[string]bool{}
+	for _, s := range ins {
+		for k := range s.hsf {
+			hsfKeys[k] = true
+		}
+	}
+	for _, k := range sortedKeysB(hsfKeys) {
+		var vs []Val
+		isB := g.hsfSorts[k] == hsfSortBool
+		for _, s := range ins {
+			vs = append(vs, Val{Kind: "heaparr:" + g.hsfSorts[k], T: g.hsfGet(s, k, isB)})
+		}
+		out.hsf[k] = g.mergeVal(sel, vs).T
 	}
 	for _, s := range ins {
 		for d, f := range s.defers {
